@@ -120,9 +120,12 @@ impl Date {
     #[inline]
     pub fn add_days(self, days: f64) -> Result<Date> {
         let timestamp = self.0.add_days(days)?;
+        // Rounds half away from zero to whole seconds, in exact integer arithmetic.
+        let usecs = timestamp.usecs();
+        let half = USECONDS_PER_SECOND / 2;
+        let rounded = if usecs < 0 { usecs - half } else { usecs + half };
         Ok(Date(Timestamp::try_from_usecs(
-            ((timestamp.usecs() as f64) / USECONDS_PER_SECOND as f64).round() as i64
-                * USECONDS_PER_SECOND,
+            rounded / USECONDS_PER_SECOND * USECONDS_PER_SECOND,
         )?))
     }
 
